@@ -214,6 +214,22 @@ Definition position_and_extent_in_data (B : behaviour) (extent pos cnt : list Z)
     Ok (Nat.eqb (List.length extent) (List.length pos) && Nat.eqb (List.length extent) (List.length cnt)
         && box_inside extent pos cnt).
 
+(** * Further public routes of src/util/dataAccess.cpp *)
+
+(** util::positionToIndex(starts, ends, units, RangeMatch, const Dimension &) with any number of entries (dataSlice calls it
+    with one): sampled and range dimensions demand as many ends and units as starts, set and data-frame dimensions as many
+    ends (std::runtime_error otherwise); then every entry is scaled by its own unit factor and converted *)
+Definition position_to_index_pairs (d : dim) (ss es : list F64) (us : list unit_t) (rm : RangeMatch) : res (list (option (Z * Z))) :=
+  let sizes_differ :=
+    match d with
+    | DSet _ => negb (Nat.eqb (List.length ss) (List.length es))
+    | DFrame _ => negb (Nat.eqb (List.length ss) (List.length es))
+    | _ => negb (Nat.eqb (List.length ss) (List.length es)) || negb (Nat.eqb (List.length ss) (List.length us))
+    end in
+  if sizes_differ then Err "std::runtime_error"
+  else mapM (fun i => position_to_index_pair d (nth i ss f64_zero) (nth i es f64_zero) (nth i us None) rm) (seq 0 (List.length ss)).
+
+
 (** * dataSlice *)
 
 (** start[i] / end[i] on the argument vectors: std::vector::operator[] is unchecked *)
@@ -285,6 +301,10 @@ Definition data_slice (B : behaviour) (dims : list dim) (shape : list Z)
     bind (position_and_extent_in_data B shape offset count) (fun inside =>
     if negb inside then Err oob
     else mk_view B shape count offset))).
+
+(** util::dataSlice(array, start, end): units default to {}, the mode to Exclusive *)
+Definition data_slice3 (B : behaviour) (dims : list dim) (shape : list Z) (start end_ : list F64) : res view :=
+  data_slice B dims shape start end_ [] RangeMatch_Exclusive.
 
 (** the data a slice delivers: DataView::getData(own type, buf, view.dataExtent(), {}) *)
 Definition slice_read (B : behaviour) (dims : list dim) (a : arr)
